@@ -122,12 +122,5 @@ Proof.
   repeat match goal with |- _ /\ _ => split end; try discriminate; try reflexivity; try (eexists; reflexivity).
 Qed.
 
-(* on the current facts every one of them is refused before anything is evaluated, as member and as statement *)
-Lemma sb_member_current_refused :
-  forall e, In e [sb_member_prog_global false; sb_member_prog_global true; sb_member_prog_call; sb_member_prog_nested;
-                  sb_member_prog_local (SbVariable sb_n_x []); sb_member_prog_local (sb_lit sb_n_x)] ->
-  sb_run_member sb_cur_facts e [] = (SbRErr SbESandbox,
-    snd (sb_alloc sb_t_Dictionary [] (sb_member_st []))).
-Proof.
-  intros e H. repeat (destruct H as [<-|H]; [vm_compute; reflexivity|]). destruct H.
-Qed.
+(* the state after a refused dictionary-literal member: only the (local) dictionary has been allocated *)
+Definition sb_member_refused_st : sb_st := snd (sb_alloc sb_t_Dictionary [] (sb_member_st [])).
